@@ -146,7 +146,7 @@ Definition time_simple (s : str) : bool :=
 
 (* ================= values ================= *)
 Record tattrs := mkTA { ta_s : list (option str); ta_z : option Z }.
-Record trun := mkRun { tr_text : str; tr_style : option str; tr_attrs : tattrs }.
+Record trun := mkRun { tr_txt : str; tr_style : option str; tr_attrs : tattrs }.
 Record titem := mkItem { ti_st : Z; ti_en : Z; ti_region : option str; ti_style : option str; ti_attrs : tattrs;
                          ti_lines : list (list trun) }.
 (* a style (ts_ref = parent style) or a region (ts_ref = style) *)
@@ -330,7 +330,7 @@ Definition text_kids (t : str) : list xnode := match t with [] => [] | _ => [XTe
 Definition out_header (el : str) (s : tstyle) : xnode :=
   XElem (nm ns_ttml el) (opt_attr ns_xml s_id (Some (ts_id s)) ++ opt_attr [] s_style (ts_ref s) ++ out_attrs (ts_attrs s)) [].
 Definition out_run (r : trun) : xnode :=
-  XElem (nm ns_ttml s_span) (opt_attr [] s_style (tr_style r) ++ out_attrs (tr_attrs r)) (text_kids (tr_text r)).
+  XElem (nm ns_ttml s_span) (opt_attr [] s_style (tr_style r) ++ out_attrs (tr_attrs r)) (text_kids (tr_txt r)).
 Definition out_br : xnode := XElem (nm ns_ttml s_br) [] [].
 (* the items of a paragraph: the runs of every line followed by a br, the last br removed *)
 Definition out_lines (ls : list (list trun)) : list xnode :=
